@@ -13,7 +13,9 @@ MCBases == { <<>>, <<"app">> }
 T1 == << <<Loc("about")>>, <<Loc("users"), Param>>, <<St("docs"), Splat>> >>
 T2 == << <<Opt, Loc("about")>>, <<St("x"), Loc("users"), Opt>> >>
 T3 == << >>
-MCTables == {T1, T2, T3}
+\* two optional parameters in one route, a localized / a static segment between them: any subset of them may be absent from a URL
+T4 == << <<Opt, Loc("about"), Opt>>, <<Opt, St("x"), Opt>> >>
+MCTables == {T1, T2, T3, T4}
 Segs(x) == { LocName[k][x] : k \in DOMAIN LocName }
 \* paths below the prefix: up to 2 words, plus spellings of the localized segments in each locale
 MCRests == { <<>> } \cup { <<a>> : a \in Words } \cup { <<a, b>> : a \in Words, b \in Words }
